@@ -34,8 +34,59 @@ def seed_of(base, i):
 
 # ------------------------------------------------------------------------------- one run
 
+def singletons_dirty():
+    """process-wide shared empties: a corruption by one run must not leak into the next"""
+    pm, pt = boot.pm, boot.pt
+    out = []
+    if pm.Mark.none:
+        out.append("Mark.none")
+    if pm.Fragment.empty.content or pm.Fragment.empty.size:
+        out.append("Fragment.empty")
+    if pm.Slice.empty.content is not pm.Fragment.empty or pm.Slice.empty.open_start or pm.Slice.empty.open_end:
+        out.append("Slice.empty")
+    if pt.StepMap.empty.ranges or pt.StepMap.empty.inverted:
+        out.append("StepMap.empty")
+    return out
+
+
+def restore_singletons():
+    pm, pt = boot.pm, boot.pt
+    del pm.Mark.none[:]
+    del pm.Fragment.empty.content[:]
+    pm.Fragment.empty.size = 0
+    pm.Slice.empty.content = pm.Fragment.empty
+    pm.Slice.empty.open_start = pm.Slice.empty.open_end = 0
+    del pt.StepMap.empty.ranges[:]
+    pt.StepMap.empty.inverted = False
+
+
+def setup_violation(prop, seed, tier, dirty):
+    return {"seed": seed, "violation": {"prop": "C10", "check": "mutated.singleton_during_setup",
+                                        "detail": {"shape": dirty[0], "dirty": dirty,
+                                                   "note": "building the run's initial document and configuration "
+                                                           "(pure library calls on fresh objects) changed a "
+                                                           "process-wide shared empty"}},
+            "internal": None, "cfg": {"setup_only": True, "seed": seed, "tier": tier, "prop": prop},
+            "trace": [], "stats": {}, "probes": {}, "evals": {"C10": 1}, "distinct": {}, "samples": {},
+            "known_hits": {}, "diags": {}, "events": 0, "virtual_ms": 0, "digest": "setup", "states": []}
+
+
 def run_generated(prop, tier, seed, known, want_trace=False):
-    cfg = swarm.make_cfg(seed, prop, tier)
+    if singletons_dirty():
+        restore_singletons()
+    try:
+        cfg = swarm.make_cfg(seed, prop, tier)
+    except Exception:  # noqa: BLE001
+        dirty = singletons_dirty()
+        if dirty and prop == "C10":
+            restore_singletons()
+            return setup_violation(prop, seed, tier, dirty)
+        raise
+    dirty = singletons_dirty()
+    if dirty:
+        restore_singletons()
+        if prop == "C10":
+            return setup_violation(prop, seed, tier, dirty)
     mon = monitors.Monitors([prop], known)
     s = None
     res = {"seed": seed, "cfg_schema": cfg["schema"], "violation": None, "internal": None}
@@ -59,6 +110,20 @@ def run_generated(prop, tier, seed, known, want_trace=False):
 
 
 def run_replay(prop, cfg, trace, known, on=None):
+    if singletons_dirty():
+        restore_singletons()
+    if cfg.get("setup_only"):
+        try:
+            swarm.make_cfg(cfg["seed"], cfg["prop"], cfg["tier"])
+        except Exception:  # noqa: BLE001
+            pass
+        dirty = singletons_dirty()
+        if dirty:
+            restore_singletons()
+            return setup_violation(cfg["prop"], cfg["seed"], cfg["tier"], dirty)
+        return {"seed": None, "violation": None, "internal": None, "stats": {}, "probes": {}, "evals": {},
+                "distinct": {}, "samples": {}, "known_hits": {}, "diags": {}, "events": 0, "virtual_ms": 0,
+                "digest": "setup", "states": []}
     mon = monitors.Monitors(on or [prop], known)
     s = None
     res = {"seed": None, "violation": None, "internal": None}
